@@ -26,6 +26,7 @@ EXTERNAL_BASES: Dict[str, List[str]] = {
     "lark.visitors.Transformer": [],
     "marshmallow.Schema": [],
     "abc.ABC": [],
+    "typing.NamedTuple": [],
     "builtins.BaseException": [],
     "builtins.Exception": ["builtins.BaseException"],
     "builtins.str": [],
@@ -219,8 +220,7 @@ class SrcModel:
         def index_body(body: Iterable[ast.stmt]) -> None:
             for st in body:
                 if isinstance(st, (ast.FunctionDef, ast.AsyncFunctionDef)):
-                    if st.name not in mod.functions:
-                        self._index_function(st, mod, None, None, f"{mod.name}.{st.name}")
+                    self._index_function(st, mod, None, None, f"{mod.name}.{st.name}")  # a later def of the same name wins, like in Python
                 elif isinstance(st, ast.ClassDef):
                     if st.name not in mod.classes:
                         self._index_class(st, mod)
